@@ -201,6 +201,13 @@ def cmp_atoms(e, atom_name=None):
             nums.setdefault(k, v)
 
     def rec(n):
+        k0 = nm(n)
+        if k0 and not isinstance(n, (ast.BoolOp,)):
+            # the rule names this whole sub-expression as one boolean atom
+            if isinstance(n, ast.Compare) or not isinstance(n, (ast.UnaryOp,)):
+                if isinstance(n, ast.Compare) and k0:
+                    bools.setdefault(k0, n)
+                    return
         if isinstance(n, ast.BoolOp):
             for v in n.values:
                 rec(v)
@@ -237,6 +244,9 @@ def eval_pred(e, env, atom_name=None):
         return eval_num(n, env, atom_name)
 
     def rec(n):
+        k0 = nm(n)
+        if k0 and isinstance(n, ast.Compare) and k0 in env and isinstance(env[k0], bool):
+            return env[k0]
         if isinstance(n, ast.BoolOp):
             if isinstance(n.op, ast.And):
                 return all(rec(v) for v in n.values)
